@@ -745,7 +745,7 @@ func familyUUID() {
 
 func main() {
 	r = mon.Start("C15", "exploration")
-	r.Rule("Each conversion (FILETIME, LDAP timestamp/duration, key-credential DateTime, UUID v1/v2 timestamp) in both directions on boundary values (0, +-1, both epochs, every multiple of the int64-nanosecond wrap, 2^k and 2^k-1, type extremes, sentinels) and seeded random values over the whole representable domain; Go times in four zones and two constructions. Non-trivial: a boundary value, or a value outside 1970..2100 (the only span the repository's tests touch), counted once per (conversion family, 2^48-tick bucket = 325 days); malformed decimal strings each once.")
+	r.Rule("Each conversion (FILETIME, LDAP timestamp/duration, key-credential DateTime, UUID v1/v2 timestamp) in both directions on boundary values (0, +-1, both epochs, every multiple of the int64-nanosecond wrap, 2^k and 2^k-1, type extremes, sentinels) and seeded random values over the whole representable domain; Go times in four zones and two constructions. Non-trivial: a boundary value, or a value outside 1970..2100 (the only span the repository's tests touch), counted once per (conversion family, 2^48-tick bucket = 325 days); malformed decimal strings each once. State monitors (state.go): one FILETIME / UUIDv1 / UUIDv2 object reused over chains of boundary and seeded values (never-sentinel before 0), fields assigned directly and read with no call in between, caller buffers overwritten after parsing, returned slices held and re-compared, and 8 goroutines converting unrelated values through every conversion; each chain element counts once.")
 	r.Assume(
 		"math/big, strconv and the time package of the Go standard library are correct (time.Unix/Unix()/Nanosecond() are the bridge between big-integer arithmetic and time.Time)",
 		"the 1601 and 1582 epoch offsets are recomputed from civil day counts (134774 and 141427 days before 1970-01-01) and must equal the published constants, else inconclusive",
@@ -760,7 +760,7 @@ func main() {
 		r.Inconclusive("reference epoch constants disagree with civil day counts")
 	}
 	var wg sync.WaitGroup
-	for _, f := range []func(){familyFILETIME, familyLDAP, familyDateTime, familyUUID} {
+	for _, f := range []func(){familyFILETIME, familyLDAP, familyDateTime, familyUUID, stateMonitors /* state.go */} {
 		wg.Add(1)
 		go func() { defer wg.Done(); f() }()
 	}
